@@ -7,6 +7,7 @@ package harness
 
 import (
 	"bytes"
+	"encoding/json"
 	"errors"
 	"fmt"
 	"io"
@@ -30,6 +31,45 @@ type NodeSpec struct {
 	// Rep > 1: the value is Value repeated Rep times (long lines without
 	// long case files)
 	Rep int `json:"rep,omitempty"`
+}
+
+// In case files every byte of a value or pointer is written as the rune with
+// that code (as Segments are): JSON cannot hold strings that are not UTF-8.
+type nodeSpecJSON struct {
+	Tag      string     `json:"t"`
+	Value    string     `json:"v,omitempty"`
+	Pointer  string     `json:"p,omitempty"`
+	Children []NodeSpec `json:"c,omitempty"`
+	Rep      int        `json:"rep,omitempty"`
+}
+
+func bytesAsRunes(s string) string {
+	r := make([]rune, 0, len(s))
+	for i := 0; i < len(s); i++ {
+		r = append(r, rune(s[i]))
+	}
+	return string(r)
+}
+
+func runesAsBytes(s string) string {
+	b := make([]byte, 0, len(s))
+	for _, r := range s {
+		b = append(b, byte(r))
+	}
+	return string(b)
+}
+
+func (s NodeSpec) MarshalJSON() ([]byte, error) {
+	return json.Marshal(nodeSpecJSON{s.Tag, bytesAsRunes(s.Value), bytesAsRunes(s.Pointer), s.Children, s.Rep})
+}
+
+func (s *NodeSpec) UnmarshalJSON(b []byte) error {
+	var j nodeSpecJSON
+	if err := json.Unmarshal(b, &j); err != nil {
+		return err
+	}
+	*s = NodeSpec{Tag: j.Tag, Value: runesAsBytes(j.Value), Pointer: runesAsBytes(j.Pointer), Children: j.Children, Rep: j.Rep}
+	return nil
 }
 
 func (s NodeSpec) value() string {
@@ -415,8 +455,10 @@ var specialTags = []string{"BAPM", "BIRT", "BURI", "DATE", "DEAT", "EVEN", "_FID
 var plainTags = []string{"HEAD", "CHAR", "TRLR", "OCCU", "GIVN", "SURN", "CONT", "CONC", "TITL", "AUTH", "FAMS", "FAMC",
 	"MARR", "OBJE", "FILE", "_CUSTOM", "_x", "ZZZ", "note", "Abc_1", "123", "0", "1", "9NAME", "_"}
 var valuePool = []string{"", "", "x", "John /Smith/", "@I1@", "@X@ trailing", "1 NAME nested", "0", "12 Jan 2001", "M", "a  b",
-	"@", "@@", "é ü", "value with @ inside", "100% sure", "%d %s %v", "%", "5%!x", "NAME", "1", "<tag> & \"q\"", "EE13561DDB204985BFFDEEBF82A5226C", "LZDP-V9V"}
-var pointerPool = []string{"", "", "", "I1", "F1", "S1", "x y", "../p", "1", "NAME", "é"}
+	"@", "@@", "é ü", "value with @ inside", "100% sure", "%d %s %v", "%", "5%!x", "NAME", "1", "<tag> & \"q\"", "EE13561DDB204985BFFDEEBF82A5226C", "LZDP-V9V",
+	// not UTF-8: Latin-1 / ANSEL data, a cut-off sequence (GEDCOM 5.5 files are ANSEL by default)
+	"caf\xe9", "\xff\xfe", "cut off \xc3", "M\xfcller /Stra\xdfe/"}
+var pointerPool = []string{"", "", "", "I1", "F1", "S1", "x y", "../p", "1", "NAME", "é", "\xe9"}
 
 func genSpec(r *rand.Rand, depth, maxDepth int, budget *int) NodeSpec {
 	s := NodeSpec{}
@@ -709,6 +751,9 @@ func runRoundTrip(t *testing.T, c *Case, cr *CaseResult) *CaseResult {
 		}
 	}
 	for i, p := range cfg.Plans {
+		if len(text) > 100000 && i >= 2 {
+			break
+		}
 		out := decodeWith(text, p, false, false, st)
 		check(fmt.Sprintf("delivery plan %d %+v", i, p), out, cfg.HasBOM)
 		if len(p.Chunks) > 0 {
@@ -727,6 +772,11 @@ func runRoundTrip(t *testing.T, c *Case, cr *CaseResult) *CaseResult {
 			if total > 48 && k > 16 && k <= total-8 && k%5 != 0 {
 				continue
 			}
+			// a document with a very long line is written and read back a
+			// few times only (each pass moves hundreds of kilobytes)
+			if len(text) > 100000 && k > 3 && k < total-1 {
+				continue
+			}
 			faults = append(faults, WriteFault{K: k}, WriteFault{K: k, Sticky: true})
 			if k%3 == 1 {
 				faults = append(faults, WriteFault{K: k, Short: true})
@@ -735,6 +785,7 @@ func runRoundTrip(t *testing.T, c *Case, cr *CaseResult) *CaseResult {
 	}
 	for _, f := range faults {
 		fw := &SimWriter{faults: []WriteFault{f}}
+		enc := gedcom.NewEncoder(fw, doc)
 		var encErr error
 		var pv string
 		func() {
@@ -743,7 +794,7 @@ func runRoundTrip(t *testing.T, c *Case, cr *CaseResult) *CaseResult {
 					pv = fmt.Sprint(p)
 				}
 			}()
-			encErr = gedcom.NewEncoder(fw, doc).Encode()
+			encErr = enc.Encode()
 		}()
 		cr.Runs++
 		if fw.fired == 0 {
@@ -760,7 +811,38 @@ func runRoundTrip(t *testing.T, c *Case, cr *CaseResult) *CaseResult {
 			continue
 		}
 		if encErr != nil {
-			continue // a failed write reported as failure: fine
+			// a failed write reported as failure: fine. The retry on the
+			// same Encoder, once the writer works again, must write the
+			// document (or fail), whatever the failed attempt left behind.
+			if !f.Sticky && pv == "" {
+				before := len(fw.accepted)
+				var retryErr error
+				var rpv string
+				func() {
+					defer func() {
+						if p := recover(); p != nil {
+							rpv = fmt.Sprint(p)
+						}
+					}()
+					retryErr = enc.Encode()
+				}()
+				cr.Runs++
+				cr.count("history.retry_on_same_encoder", 1)
+				if rpv != "" {
+					cr.violate(prop+"/write-fault", "encoder panics when Encode is called again after a failed write", fmt.Sprintf("fault %+v: %s", f, rpv))
+				} else if retryErr == nil {
+					out := decodeWith(fw.accepted[before:], wholePlan(), false, false, st)
+					bad := out.err != nil || out.panicVal != "" || out.doc == nil
+					if !bad {
+						bad = dumpForest(fromDoc(out.doc), true) != want || out.doc.HasBOM != cfg.HasBOM
+					}
+					if bad {
+						cr.violate(prop+"/write-fault", "Encode called again after a failed write reports success but does not write the document",
+							fmt.Sprintf("Write call %d of %d failed (%+v); the second Encode on the same Encoder returned nil and wrote:\n%s", f.K, total, f, clip(string(fw.accepted[before:]), 300)))
+					}
+				}
+			}
+			continue
 		}
 		// reported success: what the writer accepted must still be the document
 		out := decodeWith(fw.accepted, wholePlan(), false, false, st)
@@ -975,7 +1057,11 @@ func genStructureCase(prop, tier string, r *rand.Rand) *Case {
 		if tag == "FAM" {
 			famSeen = true
 		}
-		line := fmt.Sprintf("%d", level) + strings.Repeat(" ", 1+r.IntN(2)*r.IntN(3))
+		lv := fmt.Sprintf("%d", level)
+		if level < 10 && r.IntN(12) == 0 {
+			lv = "0" + lv // a level written with two digits (08 is eight, not octal)
+		}
+		line := lv + strings.Repeat(" ", 1+r.IntN(2)*r.IntN(3))
 		if r.IntN(4) == 0 || ((tag == "INDI" || tag == "FAM") && level == 0) {
 			line += "@" + pick(r, []string{"I1", "F2", "x y", "é", "1"}) + "@ "
 			if r.IntN(150) == 0 {
@@ -1227,7 +1313,7 @@ func genTotalityCase(prop, tier string, r *rand.Rand) *Case {
 		cfg.Prior = []string{"0 HEAD\n1 CHAR UTF-8\n0 @I1@ INDI\n1 NAME x /y/\n1 NAME x\n0 @I2@ INDI\n0 @F1@ FAM\n1 HUSB @I1@\n1 WIFE @I2@\n1 CHIL @I1@\n1 MARR\n2 HUSB\n0 TRLR\n"}
 		lines := []string{"0 HEAD", "1 CHAR UTF-8", "0 @I1@ INDI", "1 NAME x /y/", "0 @F1@ FAM", "1 HUSB @I1@", "1 WIFE @I2@", "1 CHIL @I1@",
 			"0 HUSB @I1@", "0 CHIL @I1@", "1 WIFE @I2@", "2 HUSB", "1 NAME x", "3 DATE 1 Jan 1900", "9 NOTE deep", "1 INDI", "1 FAM", "2 FAM",
-			"0 @I1@ INDI value", "0 TRLR", "", "garbage", "10 NOTE ten", "1  NAME two spaces", "1 @@ NAME", "1 @a@b@ NAME", "0", "0 ", " 0 HEAD", "-1 NAME", "1 NAME\x00nul"}
+			"0 @I1@ INDI value", "0 TRLR", "", "garbage", "1 husb @I1@", "1 Wife @I2@", "0 chil @I1@", "1 hUSB", "0 @I3@ indi", "0 @F2@ Fam", "1 name x /y/", "1 Sex M", "10 NOTE ten", "1  NAME two spaces", "1 @@ NAME", "1 @a@b@ NAME", "0", "0 ", " 0 HEAD", "-1 NAME", "1 NAME\x00nul"}
 		n := r.IntN(14)
 		for i := 0; i < n; i++ {
 			b = append(b, pick(r, lines)...)
@@ -1296,6 +1382,9 @@ func genTotalityCase(prop, tier string, r *rand.Rand) *Case {
 }
 
 var lineErrRe = regexp.MustCompile(`^line \d+: `)
+
+// concurrentSeq numbers the concurrent-decoder runs of this process.
+var concurrentSeq int
 
 func runTotality(t *testing.T, c *Case, cr *CaseResult) *CaseResult {
 	cfg := c.Stream
@@ -1379,6 +1468,66 @@ func runTotality(t *testing.T, c *Case, cr *CaseResult) *CaseResult {
 			judge(fmt.Sprintf("read error at %d of %d", k, len(data)), o, true)
 			if o.err == nil && o.panicVal == "" && o.doc != nil {
 				cr.violate(prop+"/totality", "read error swallowed: a document is returned", fmt.Sprintf("reader failed at offset %d of %d", k, len(data)))
+			}
+		}
+	}
+	// two decoders at work at the same time, each on its own stream: what one
+	// goroutine decodes must not matter to the other (scheduled by the
+	// simulator, watched by the race detector)
+	if len(cfg.Prior) > 0 || len(data)%4 == 0 {
+		otherText := "0 HEAD\n1 CHAR UTF-8\n0 @I1@ INDI\n1 NAME x /y/\n1 _CUSTOM1 a\n0 @F1@ FAM\n1 HUSB @I1@\n1 _CUSTOM2 b\n0 TRLR\n"
+		if len(cfg.Prior) > 0 {
+			otherText = cfg.Prior[0]
+		}
+		// both streams end with a tag this process has not met before (what a
+		// decoder keeps about tags it has seen is process-wide state)
+		concurrentSeq++
+		uniq := fmt.Sprintf("%x%d", hashBytes(data)&0xffff, concurrentSeq)
+		data := append(append([]byte(nil), data...), ("\n0 _A" + uniq + " x\n")...)
+		otherText += "0 _B" + uniq + " y\n"
+		var together, otherTogether decodeOutcome
+		sim := c.Sim
+		if sim.Mode == "" || sim.Mode == "default" {
+			sim = simrt.Config{Mode: "random", PreemptProb: 0.3, Seed: uint64(len(data))*7919 + 1, MapOrder: "identity"}
+		}
+		if sim.PointGap == 0 || sim.PointGap > 30 {
+			sim.PointGap = 1 + int64(len(data)%30)
+		}
+		res, _ := runSim(t, cr, prop, sim, func() {
+			done := make(chan struct{}, 2)
+			simrt.Go("harness:decoder-a", func() {
+				simrt.Yield("harness:decoder-a.start")
+				together = decodeWith(data, wholePlan(), ml, ii, &streamStats{}) // own statistics: nothing shared but the library
+				done <- struct{}{}
+			})
+			simrt.Go("harness:decoder-b", func() {
+				simrt.Yield("harness:decoder-b.start")
+				otherTogether = decodeWith([]byte(otherText), wholePlan(), ml, ii, &streamStats{})
+				done <- struct{}{}
+			})
+			for i := 0; i < 2; i++ {
+				simrt.Yield("harness:join")
+				<-done
+			}
+		})
+		cr.Runs++
+		cr.count("concurrent_decoders", 1)
+		alone := decodeWith(data, wholePlan(), ml, ii, st)
+		otherAlone := decodeWith([]byte(otherText), wholePlan(), ml, ii, st)
+		if res.Outcome != "completed" {
+			cr.violate(prop+"/totality", "two concurrent decodes: "+res.Outcome, fmt.Sprintf("%+v %+v", res.Crash, res.Leaked))
+		} else {
+			same := func(a, b decodeOutcome) bool {
+				if a.panicVal != b.panicVal || (a.err == nil) != (b.err == nil) || (a.doc == nil) != (b.doc == nil) {
+					return false
+				}
+				if a.err != nil && a.err.Error() != b.err.Error() {
+					return false
+				}
+				return a.doc == nil || dumpForest(fromDoc(a.doc), true) == dumpForest(fromDoc(b.doc), true)
+			}
+			if !same(alone, together) || !same(otherAlone, otherTogether) {
+				cr.violate(prop+"/totality", "the result of a decode depends on another decode running at the same time", fmt.Sprintf("input: %q", clip(string(data), 300)))
 			}
 		}
 	}
